@@ -199,16 +199,17 @@ Qed.
 (* a new consumer starts armed *)
 Theorem consume_arms cfg fx s c h q tag noack excl nowait s' evs :
   handle_method cfg fx s c h (MConsume q tag noack excl nowait) = (s', evs, None) ->
-  get_chan s c h <> None -> armed s' c h tag.
+  get_chan s c h <> None -> armed s' c h (eff_tag s tag).
 Proof.
   unfold handle_method. intros H Hc. destruct (get_chan s c h) as [ch|] eqn:Ech; [|congruence].
   pose proof (get_chan_conn _ _ _ _ Ech) as Hcc.
-  unfold refuse, ok in H.
+  unfold refuse, ok in H. cbv zeta in H. set (t := eff_tag s tag) in *.
   repeat match type of H with
   | (match ?x with _ => _ end) = _ => destruct x eqn:?
   | (if ?x then _ else _) = _ => destruct x eqn:?
   end; try discriminate.
   all: inversion H; subst; clear H.
+  all: match goal with |- context [if seqb ?x ?y then _ else _] => destruct (seqb x y) end.
   all: apply armed_set_chan_new; [exact Hcc | assumption | reflexivity | reflexivity].
 Qed.
 
